@@ -186,7 +186,8 @@ def check_headers(case, o, fa):
                     break
                 if bb.kind == 'fusion':
                     es = [e for e in bb.edits if y in e.ids]
-                    if es and side is not None and any(e.side != side for e in es):
+                    # (the same id string can denote records of both partner genes: ids are position-based)
+                    if es and side is not None and not any(e.side == side for e in es):
                         bad.append({'kind': 'wrong-fusion-side', 'entry': ent, 'pep': pep, 'id': y})
                         sides_ok = False
                         break
@@ -208,7 +209,10 @@ def check_headers(case, o, fa):
                     continue
             if not ok:
                 bad.append({'kind': 'not-witness', 'entry': ent, 'pep': pep, 'why': why,
-                            'repair': minimal_repair(bb, set(named), lim, flags, pep)})
+                            'repair': minimal_repair(bb, set(named), lim, flags, pep),
+                            'circular': bb.circular, 'circle_nt': len(bb.seq) if bb.circular else None,
+                            'fusion_donor_fs': bb.kind == 'fusion' and any(
+                                e.side == 1 and (len(e.alt) - (e.end - e.start)) % 3 != 0 for e in bb.edits)})
     return {'n': n, 'bad': bad}
 
 
@@ -277,6 +281,8 @@ def locate(bb, ids, lim, flags, pep, added, dropped, orig_ids):
                     d += len(e2.alt) - (e2.end - e2.start)
                 hs, he = e.start + d, e.start + d + len(e.alt)
                 info['added'][i] = 'upstream' if he <= pos[0] else ('downstream' if hs >= pos[1] else 'inside')
+                if bb.circular and info['added'][i] == 'downstream':
+                    info['added'][i] = 'upstream'      # on a circle the record is passed in the lap before the peptide's
         break
     def near_named(e, named_ids, skip):
         for e2 in bb.edits:
@@ -384,14 +390,19 @@ def mech_missing(o, p):
     if all(start_anchor(bb, h) for bb, h in W):
         return 'KF-START-ANCHOR'
     def fusion_both_sides(bb, h):
+        # the haplotype runs through an acceptor-side record of a fusion whose donor part CARRIES a frameshifting record
+        # (in the haplotype or not: its presence alone makes the acceptor part a subgraph)
         if bb.kind != 'fusion':
             return False
-        donor_fs = any(e.side == 1 and (len(e.alt) - (e.end - e.start)) % 3 != 0 for e in h)
+        donor_fs = any(e.side == 1 and (len(e.alt) - (e.end - e.start)) % 3 != 0 for e in bb.edits)
         return donor_fs and any(e.side == 2 for e in h)
     if all(fusion_both_sides(bb, h) for bb, h in W):
         return 'KF-FUSION-ACCEPTOR-VAR'
     flags = o['flags']
-    if flags.sect and all(bb.end_nf for bb, _ in W):
+    def endnf(bb):
+        # a fusion whose donor is an mRNA_end_NF transcript repeats the donor-only peptides of that transcript
+        return bb.end_nf or (bb.kind == 'fusion' and bb.tx is not None and bb.tx.coding and bb.tx.mrna_end_nf)
+    if flags.sect and all(endnf(bb) for bb, _ in W) and any(bb.kind == 'main' for bb, _ in W):
         f2 = orc.Flags(False, flags.w2f, flags.coding_novel_orf, flags.max_adjacent)
         if not any(p in orc.backbone_peptides(bb, h, o['lim'], f2, True, 1e-3) for bb, h in W):
             return 'KF-SECT-ENDNF'
